@@ -22,6 +22,7 @@ import (
 	"reflect"
 	"regexp"
 	"sort"
+	"runtime"
 	"strings"
 	"sync"
 	"testing"
@@ -326,6 +327,35 @@ func (w *c19World) housekeeping(out *vlib.Out, content string, res c19Load) *Reg
 		fail("C19:expiry-wrong", fmt.Sprintf("%d registrations left after expiry, expected 1", n))
 	}
 	return rm
+}
+
+// c19TickJobs: what the three ticker loops of the station do on a tick (Stats.PrintStats(false) over the modules
+// main registers that exist here, Stats.PrintStats(true), RemoveOldRegistrations), over and over until stop is
+// closed and once more after that; the text of a panic, or ""
+func c19TickJobs(w *c19World, rm *RegistrationManager, stop chan struct{}) (panicked string) {
+	defer func() {
+		if r := recover(); r != nil {
+			panicked = fmt.Sprint(r)
+		}
+	}()
+	st := &Stats{logger: w.logger, generations: make(map[uint32]int64), genMutex: &sync.Mutex{}}
+	st.AddStatsModule(rm.LivenessTester, false)
+	st.AddStatsModule(GetProxyStats(), false)
+	st.AddStatsModule(rm, false)
+	for last := false; ; {
+		st.PrintStats(false)
+		st.PrintStats(true)
+		rm.RemoveOldRegistrations()
+		if last {
+			return ""
+		}
+		select {
+		case <-stop:
+			last = true
+		default:
+			runtime.Gosched()
+		}
+	}
 }
 
 // ---------------------------------------------------------------------------------------------
@@ -842,6 +872,10 @@ func (w *c19World) reloadCase(out *vlib.Out, evs []c19Event) {
 		reloaded := false
 		cfgBefore := c19CfgRepr(rm.RegConfig)
 		var newConf *Config
+		// the periodic jobs of the station (the three ticker loops of CJ/Gen/C19Housekeeping.lean) keep running
+		// while the reload is under way, and run once more after it
+		tickStop, tickDone := make(chan struct{}), make(chan string, 1)
+		go func() { tickDone <- c19TickJobs(w, rm, tickStop) }()
 		func() {
 			defer func() {
 				if r := recover(); r != nil {
@@ -856,7 +890,12 @@ func (w *c19World) reloadCase(out *vlib.Out, evs []c19Event) {
 			reloaded = true
 			rm.OnReload(newConf.RegConfig)
 		}()
+		close(tickStop)
 		out.Checked()
+		if p := <-tickDone; p != "" {
+			fail("C19:housekeeping-panic", fmt.Sprintf("a periodic job panicked while / after reload %d (%s): %s", k, e.String(), p))
+		}
+		out.Count("tick-jobs-around-reload")
 		if panicked != "" {
 			sig := "C19:reload-panic"
 			if strings.Contains(panicked, "regexp") {
